@@ -745,6 +745,48 @@ Proof.
       intros H; inversion H; subst. specialize (IH _ _ Hf). cbn; lia.
 Qed.
 
+(* what [first_abort] says, in terms of feeding the inspector alone ([feed]): chunks 0..j-1
+   are eaten without exception and after none of them the inspector is complete without
+   matching; chunk j makes it raise e (AbFault e) or is eaten and leaves it complete without
+   matching (AbMismatch).  [None]: no chunk does either. *)
+Lemma first_abort_spec : forall cs i j a, first_abort i cs = Some (j, a) ->
+  snd (Wrap.feed I eat i (firstn j cs)) = false /\
+  (forall k, (0 < k <= j)%nat ->
+     let ik := fst (Wrap.feed I eat i (firstn k cs)) in complete ik && negb (fmatch ik) = false) /\
+  let ij := fst (Wrap.feed I eat i (firstn j cs)) in
+  match a with
+  | AbFault e => snd (eat ij (nth j cs [])) = Some e
+  | AbMismatch => snd (eat ij (nth j cs [])) = None /\
+                  complete (fst (eat ij (nth j cs []))) && negb (fmatch (fst (eat ij (nth j cs [])))) = true
+  end.
+Proof.
+  induction cs as [|c cs IH]; intros i j a; cbn [Wrap.first_abort]; [discriminate|].
+  destruct (eat i c) as [i' oe] eqn:Heat. destruct oe as [e|].
+  - intros H; inversion H; subst. cbn. rewrite Heat. repeat split; auto. intros k Hk. lia.
+  - destruct (complete i' && negb (fmatch i')) eqn:Hc.
+    + intros H; inversion H; subst. cbn. rewrite Heat. cbn. repeat split; auto. intros k Hk. lia.
+    + destruct (first_abort i' cs) as [[k0 b]|] eqn:Hf; [|discriminate].
+      intros H; inversion H; subst. destruct (IH _ _ _ Hf) as (H1 & H2 & H3).
+      cbn [firstn Wrap.feed nth]. rewrite Heat. split; [exact H1|]. split; [|exact H3].
+      intros k Hk. destruct k as [|k]; [lia|]. cbn [firstn Wrap.feed]. rewrite Heat.
+      destruct k as [|k]; [cbn; exact Hc|]. apply H2. lia.
+Qed.
+
+Lemma first_abort_none_spec : forall cs i, first_abort i cs = None ->
+  snd (Wrap.feed I eat i cs) = false /\
+  (forall k, (0 < k <= length cs)%nat ->
+     let ik := fst (Wrap.feed I eat i (firstn k cs)) in complete ik && negb (fmatch ik) = false).
+Proof.
+  induction cs as [|c cs IH]; intros i; cbn [Wrap.first_abort].
+  - intros _. split; [reflexivity|]. intros k Hk. cbn in Hk. lia.
+  - destruct (eat i c) as [i' oe] eqn:Heat. destruct oe as [e|]; [discriminate|].
+    destruct (complete i' && negb (fmatch i')) eqn:Hc; [discriminate|].
+    destruct (first_abort i' cs) as [[k0 b]|] eqn:Hf; [discriminate|]. intros _.
+    destruct (IH _ Hf) as (H1 & H2). cbn [Wrap.feed]. rewrite Heat. split; [exact H1|].
+    intros k Hk. destruct k as [|k]; [lia|]. cbn [firstn Wrap.feed]. rewrite Heat.
+    destruct k as [|k]; [cbn; exact Hc|]. apply H2. cbn in Hk. lia.
+Qed.
+
 (* ------------------------------------------------------------------ file-like sources: read(size) *)
 
 Lemma w_read_open w s n : f_closed s = false ->
